@@ -28,6 +28,7 @@ CHECKS = {
  "C15": ("model_checking", "6 C15", "Decision table FlytAccess.tla (38 value classes x 6 families x plain/Or/Must x result/store/absent); TLC enumerates all 1572 cells and checks the consistency relations the property states (never panics, Must/plain/Or agreement, store = result, conversion exactly for the documented types); every cell is exercised on the real accessors with several representative values per class (boundary values of all numeric kinds, NaN/Inf, typed nils, self-containing slice, uncomparable structs/arrays) plus seeded random values; the harness logs plain facts (panicked, ok, equals default / zero / Go's own conversion / ToSlice elementwise) and TLC judges each call against its cell."),
  "C16": ("model_checking", "6 C16", "Decision table FlytBind.tla (carrier x key present x nil value x destination class x encoding/json reference outcome -> err / copy / json), consistency relations checked by TLC; every cell exercised with maps, tagged/untagged structs, slices, scalars, pointers, channels, funcs and random nested JSON values against a reference json.Marshal+Unmarshal into a fresh destination; never-panics, source-unchanged and carrier-agreement facts judged by TLC."),
  "C19": ("model_checking", "6 C19", "FlytConfig.tla builds configuration step sequences (constructor option / builder method / NodeOption applied later) and checks stepwise application = last-setting-wins, unrelated parameters untouched; every sequence up to the bound is exported and applied to real NodeBuilder / BatchNodeBuilder objects; getters and two probe runs (attempts on an always-failing exec, fallback / functions actually called, concurrency high-water mark at a barrier, stop vs continue) are compared by TLC with the expected configuration; random sequences up to length 6."),
+ "C20": ("model_checking", "6 C20", "Timed model FlytRetryTimed.tla (integer clock, wait = select{timer, ctx.Done}, urgency of the cancelled wait) model-checked: WaitHonoured, WaitOnlyBetween, PromptReturn, NoAttemptAfterCancelledWait; on the real code monotonic timestamps are taken inside the callbacks (so the measured gap over-approximates the real wait: the lower bound is a sound hard verdict) for waits 1-50 ms x budgets 2-5 x failure sequences on struct nodes, function nodes and batch items; upper bounds (no wait before the first / after the last attempt with a 1.2 s wait; return within w/2 resp. 10 s after a cancellation 20 ms into a 2 s / 1 h wait) count only if exceeded on three consecutive re-executions; TLC evaluates PropsTiming on every timed history."),
 }
 ENGINE = ["C01", "C02", "C03", "C04", "C05", "C10", "C17", "C18"]
 BATCH = ["C06", "C07", "C08", "C09", "C11"]
@@ -47,7 +48,7 @@ for p in props:
         "thorough_cmd": "./check %s --tier thorough" % pid,
         "evidence_file": "/verif/evidence/%s.json" % pid,
         "replay_cmd_template": "./check replay {path}",
-        "engine": "tla-engine" if pid in ENGINE else "tla-batch" if pid in BATCH else "tla-pool" if pid in POOL else "tla-store" if pid in STORE else "tla-tables" if pid in TABLES else "tla",
+        "engine": "tla-engine" if pid in ENGINE else "tla-batch" if pid in BATCH else "tla-pool" if pid in POOL else "tla-store" if pid in STORE else "tla-tables" if pid in TABLES else "tla-timing" if pid == "C20" else "tla",
         "level_claimed": {"category": cat, "text": text, "design_ref": "DESIGN.md section " + ref},
         "level_note": TRUST,
         "technique": "explicit TLA+ spec model-checked with TLC; TLC-generated behaviours replayed into the real code; TLA+ property predicates evaluated by TLC on histories recorded from the real code",
@@ -63,6 +64,8 @@ m = {
  "engines": [
    {"name": "tla-engine", "path": "/verif/spec/FlytEngine.tla", "serves_properties": ENGINE,
     "kind_free_text": "TLA+ operational spec of Run/Flow/function nodes + PropsEngine.tla predicates + MCEngine/TPEngine front-ends + Go harness"},
+   {"name": "tla-timing", "path": "/verif/spec/FlytRetryTimed.tla", "serves_properties": ["C20"],
+    "kind_free_text": "timed TLA+ model of the retry loop + PropsTiming predicates + timing harness"},
    {"name": "tla-tables", "path": "/verif/spec/FlytAccess.tla", "serves_properties": TABLES,
     "kind_free_text": "decision-table specs FlytAccess / FlytBind / FlytConfig + TPTables front-end + Go harness logging facts per call"},
    {"name": "tla-store", "path": "/verif/spec/StoreSem.tla", "serves_properties": ["C13", "C14"],
